@@ -95,6 +95,7 @@ func execCNF(env Env, t *world.TaskSpec, out *Outcome) {
 		}
 	}
 	s := solver.New(pb)
+	s.Verbose = t.Verbose
 	s.CuttingPlanes = t.CP && !t.Cert
 	var lines Stream[string]
 	var done chan struct{}
